@@ -1,2 +1,257 @@
-import Simfile.Model.Views
-import Simfile.Model.Convert
+/-
+C18: the attribute view and the key view of a simfile / chart are two views of one ordered mapping.
+Known attributes read and write the standard key, or the alias exactly when the alias is present and the
+standard key is not; every operation touches at most one key (`V.effKey`), leaves all other keys, their values
+and their order alone; key uniqueness is an invariant; SM charts keep exactly their six keys.
+-/
+import Simfile.Lemmas.Views
+namespace Simfile.C18
+open Simfile Simfile.O Simfile.V
+
+/-! ### 6. attribute reads -/
+
+/-- a known attribute reads the standard key, or the alias exactly when the alias is present and the standard
+key is not; with neither present it reads `none` -/
+theorem attr_reads (k : Kind) (d : Dict) (a key : Str) (alias : Option Str)
+    (h : (propsTable k).find? (·.1 = a) = some (a, key, alias)) :
+    ((d.contains key = true ∨ alias = none) → attrGet k d a = (d.get? key).join) ∧
+    (∀ al, alias = some al → d.contains key = false → d.contains al = true →
+      attrGet k d a = (d.get? al).join) ∧
+    (d.contains key = false → (∀ al, alias = some al → d.contains al = false) → attrGet k d a = none) := by
+  rw [attrGet_of_find k d a key alias h]
+  refine ⟨?_, ?_, ?_⟩
+  · rintro (hc | rfl)
+    · rw [nameOrAlias_key d key alias hc]
+    · rfl
+  · rintro al rfl hk ha
+    rw [nameOrAlias_alias d key al hk ha]
+  · intro hk ha
+    rw [nameOrAlias_neither d key alias ha, get?_of_contains_false d key hk]; rfl
+
+/-- the key the attribute resolves to, in the same three cases -/
+theorem attr_key (k : Kind) (d : Dict) (a key : Str) (alias : Option Str)
+    (h : (propsTable k).find? (·.1 = a) = some (a, key, alias)) :
+    attrKey k d a = some (match alias with
+      | some al => if d.contains key = false ∧ d.contains al = true then al else key
+      | none => key) := by
+  rw [attrKey_of_find k d a key alias h]
+  cases alias with
+  | none => rfl
+  | some al => simp only [nameOrAlias]; congr 1; by_cases h1 : d.contains key = true <;> simp [h1]
+
+/-- a name that is not in the class's table is not an attribute -/
+theorem attr_unknown (k : Kind) (d : Dict) (a : Str) (h : (propsTable k).find? (·.1 = a) = none) (v : Str) :
+    vstep k d (.getAttr a) = (d, .attributeError) ∧ vstep k d (.setAttr a v) = (d, .attributeError) ∧
+    vstep k d (.delAttr a) = (d, .attributeError) := by
+  have : attrKey k d a = none := by unfold attrKey; rw [h]; rfl
+  rw [vstep_getAttr, vstep_setAttr, vstep_delAttr, this]; exact ⟨rfl, rfl, rfl⟩
+
+example : attrGet .smSimfile [("FREEZES".toList, some "1=2".toList), ("TITLE".toList, some "x".toList)] "stops".toList
+    = some "1=2".toList := by decide
+example : attrGet .smSimfile [("FREEZES".toList, some "1=2".toList), ("STOPS".toList, some "".toList)] "stops".toList
+    = some "".toList := by decide
+example : (propsTable .smSimfile).find? (·.1 = "stops".toList) = some ("stops".toList, "STOPS".toList, some "FREEZES".toList) := by
+  decide
+
+/-- the two views agree: reading an attribute is reading its effective key (a valueless key reads `none`) -/
+theorem views_agree (k : Kind) (hk : k ≠ .smChart) (d : Dict) (a key : Str) (h : attrKey k d a = some key) :
+    vstep k d (.getAttr a) = (d, .value (d.get? key).join) ∧
+    (∀ v, d.get? key = some v → vstep k d (.getKey key) = (d, .value v)) ∧
+    (d.get? key = none → vstep k d (.getKey key) = (d, .keyError)) := by
+  refine ⟨?_, fun v hv => ?_, fun hn => ?_⟩
+  · rw [vstep_getAttr, h, attrGet_of_key k d a key h]
+  · rw [vstep_getKey, if_neg hk, hv]
+  · rw [vstep_getKey, if_neg hk, hn]
+
+example : attrKey .smSimfile [("FREEZES".toList, some "1=2".toList)] "stops".toList = some "FREEZES".toList := by
+  decide
+
+/-! ### 7. attribute writes and deletions -/
+
+/-- a successful attribute write acts on exactly the key the attribute resolved to, and is read back -/
+theorem set_get (k : Kind) (d d' : Dict) (a v : Str) (h : vstep k d (.setAttr a v) = (d', .done)) :
+    ∃ key, attrKey k d a = some key ∧ d' = d.set key (some v) ∧ attrKey k d' a = some key ∧
+      attrGet k d' a = some v := by
+  rw [vstep_setAttr] at h
+  cases hk : attrKey k d a with
+  | none => rw [hk] at h; cases h
+  | some key =>
+    rw [hk] at h
+    simp only [] at h
+    split at h
+    · cases h
+    · have hd : d' = d.set key (some v) := (congrArg Prod.fst h).symm
+      subst hd
+      have hk' := attrKey_set k d a key (some v) hk
+      refine ⟨key, rfl, rfl, hk', ?_⟩
+      rw [attrGet_of_key k _ a key hk', get?_set_self]; rfl
+
+/-- outside SM charts every known attribute can be written -/
+theorem set_succeeds (k : Kind) (hk : k ≠ .smChart) (d : Dict) (a v key : Str) (h : attrKey k d a = some key) :
+    vstep k d (.setAttr a v) = (d.set key (some v), .done) := by
+  rw [vstep_setAttr, h]
+  have : (k = .smChart) = False := by simpa using hk
+  simp [this]
+
+example : vstep .smSimfile [("FREEZES".toList, some "1=2".toList), ("TITLE".toList, some "x".toList)]
+    (.setAttr "stops".toList "3=4".toList) =
+    ([("FREEZES".toList, some "3=4".toList), ("TITLE".toList, some "x".toList)], .done) := by decide
+
+/-- deleting an attribute whose effective key is absent is a KeyError and changes nothing -/
+theorem del_absent (k : Kind) (hk : k ≠ .smChart) (d : Dict) (a key : Str) (h : attrKey k d a = some key)
+    (hn : d.contains key = false) : vstep k d (.delAttr a) = (d, .keyError) := by
+  rw [vstep_delAttr, h]
+  simp [hk, hn]
+
+/-- deleting an attribute whose effective key is present erases exactly that key -/
+theorem del_present (k : Kind) (hk : k ≠ .smChart) (d : Dict) (a key : Str) (h : attrKey k d a = some key)
+    (hn : d.contains key = true) :
+    vstep k d (.delAttr a) = (d.erase key, .done) ∧ (d.erase key).get? key = none ∧
+      Dict.keys (d.erase key) = (Dict.keys d).filter (fun x => x ≠ key) := by
+  refine ⟨?_, get?_erase_self d key, keys_erase d key⟩
+  rw [vstep_delAttr, h]
+  simp [hk, hn]
+
+example : vstep .smSimfile [("TITLE".toList, some "x".toList)] (.delAttr "stops".toList) =
+    ([("TITLE".toList, some "x".toList)], .keyError) := by decide
+example : vstep .smSimfile [("FREEZES".toList, some "1=2".toList), ("TITLE".toList, some "x".toList)]
+    (.delAttr "stops".toList) = ([("TITLE".toList, some "x".toList)], .done) := by decide
+
+/-! ### 8. one key per operation -/
+
+/-- the effective key of every operation -/
+theorem effKey_spec (k : Kind) (d : Dict) :
+    (∀ a, effKey k d (.getAttr a) = none) ∧ (∀ a v, effKey k d (.setAttr a v) = attrKey k d a) ∧
+    (∀ a, effKey k d (.delAttr a) = attrKey k d a) ∧ (∀ key, effKey k d (.getKey key) = none) ∧
+    (∀ key v, effKey k d (.setKey key v) = some key) ∧ (∀ key, effKey k d (.delKey key) = some key) ∧
+    (∀ key, effKey k d (.contains key) = none) ∧ effKey k d .items = none ∧
+    (∀ key, effKey k d (.pop key) = some key) ∧ effKey k d .popitem = d.getLast?.map (·.1) ∧
+    (∀ key v, effKey k d (.update key v) = some key) :=
+  ⟨fun _ => rfl, fun _ _ => rfl, fun _ => rfl, fun _ => rfl, fun _ _ => rfl, fun _ => rfl, fun _ => rfl, rfl,
+   fun _ => rfl, rfl, fun _ _ => rfl⟩
+
+/-- every key other than the operation's effective key keeps its value (or its absence) -/
+theorem other_keys_unaffected (k : Kind) (d : Dict) (op : VOp) (k' : Str) (h : effKey k d op ≠ some k') :
+    (vstep k d op).1.get? k' = d.get? k' := vstep_get?_ne k d op k' h
+
+/-- an operation without effective key changes nothing at all -/
+theorem no_key_no_change (k : Kind) (d : Dict) (op : VOp) (h : effKey k d op = none) : (vstep k d op).1 = d :=
+  vstep_keys_none k d op h
+
+/-- the insertion order of all other keys is preserved -/
+theorem order_preserved (k : Kind) (d : Dict) (op : VOp) (key : Str) (h : effKey k d op = some key) :
+    (Dict.keys (vstep k d op).1).filter (fun x => x ≠ key) = (Dict.keys d).filter (fun x => x ≠ key) :=
+  vstep_keys_filter k d op key h
+
+/-- a successful write (`setAttr`, `setKey`, `update`) stores the value under the effective key: a new key is
+appended at the end, an existing key keeps its position -/
+theorem set_appends (k : Kind) (d : Dict) (op : VOp) (key v : Str) (hv : written op = some v)
+    (hd : (vstep k d op).2 = .done) (he : effKey k d op = some key) :
+    (vstep k d op).1 = d.set key (some v) ∧ (vstep k d op).1.get? key = some (some v) ∧
+    (key ∉ Dict.keys d → (vstep k d op).1 = d ++ [(key, some v)] ∧ Dict.keys (vstep k d op).1 = Dict.keys d ++ [key]) ∧
+    (key ∈ Dict.keys d → Dict.keys (vstep k d op).1 = Dict.keys d) := by
+  rw [vstep_written k d op key v hv hd he]
+  refine ⟨rfl, get?_set_self _ _ _, fun hn => ?_, fun hm => keys_set_of_mem _ _ _ hm⟩
+  rw [set_of_not_mem _ _ _ hn, keys_append]; exact ⟨rfl, rfl⟩
+
+example : vstep .sscSimfile [("TITLE".toList, some "x".toList)] (.setAttr "bgchanges".toList "y".toList) =
+    ([("TITLE".toList, some "x".toList), ("BGCHANGES".toList, some "y".toList)], .done) := by decide
+example : effKey .sscSimfile [("ANIMATIONS".toList, some "x".toList)] (.setAttr "bgchanges".toList "y".toList) =
+    some "ANIMATIONS".toList := by decide
+
+example : effKey .smSimfile [("TITLE".toList, some "x".toList)] (.setKey "ARTIST".toList "y".toList) ≠
+    some "TITLE".toList := by decide
+example : effKey .smSimfile [("TITLE".toList, some "x".toList), ("ARTIST".toList, none)] .popitem =
+    some "ARTIST".toList := by decide
+example : written (.setAttr "stops".toList "1=2".toList) = some "1=2".toList ∧
+    (vstep .smSimfile [] (.setAttr "stops".toList "1=2".toList)).2 = .done ∧
+    effKey .smSimfile [] (.setAttr "stops".toList "1=2".toList) = some "STOPS".toList := by decide
+
+/-! ### 9. key uniqueness is an invariant -/
+
+theorem wf_step (k : Kind) (d : Dict) (op : VOp) (h : Dict.WF d) : Dict.WF (vstep k d op).1 := vstep_WF k d op h
+
+theorem wf_invariant (k : Kind) (d : Dict) (ops : List VOp) (h : Dict.WF d) : Dict.WF (vrun k d ops).1 :=
+  vrun_WF k d ops h
+
+example : Dict.WF [("FREEZES".toList, some "1=2".toList), ("TITLE".toList, some "x".toList)] := by
+  unfold Dict.WF; decide
+
+/-! ### 10. SM charts -/
+
+/-- an SM chart keeps exactly its six keys, in order, through every history -/
+theorem smchart_keys_fixed (d : Dict) (ops : List VOp) (h : Dict.keys d = T.smChartProperties) :
+    Dict.keys (vrun .smChart d ops).1 = T.smChartProperties := smChart_vrun_keys d ops h
+
+example : Dict.keys T.blankSMChart = T.smChartProperties := by decide
+
+/-- deleting, popping and `update` are refused on SM charts, leaving the mapping unchanged -/
+theorem smchart_not_implemented (d : Dict) :
+    (∀ a, attrKey .smChart d a ≠ none → vstep .smChart d (.delAttr a) = (d, .notImplemented)) ∧
+    (∀ key, vstep .smChart d (.delKey key) = (d, .notImplemented)) ∧
+    (∀ key, vstep .smChart d (.pop key) = (d, .notImplemented)) ∧
+    vstep .smChart d .popitem = (d, .notImplemented) ∧
+    (∀ key v, vstep .smChart d (.update key v) = (d, .notImplemented)) := by
+  refine ⟨fun a ha => ?_, fun _ => rfl, fun _ => rfl, rfl, fun _ _ => rfl⟩
+  rw [vstep_delAttr]
+  cases h : attrKey .smChart d a with
+  | none => exact absurd h ha
+  | some key => rfl
+
+/-- a key outside the six cannot be set -/
+theorem smchart_setKey_outside (d : Dict) (key v : Str) (h : key ∉ T.smChartProperties) :
+    vstep .smChart d (.setKey key v) = (d, .keyError) := by
+  rw [vstep_setKey]
+  simp [h]
+
+/-- a key write on one of the six is visible through both views -/
+theorem smchart_setKey_visible (d : Dict) (key v : Str) (h : key ∈ T.smChartProperties) :
+    vstep .smChart d (.setKey key v) = (d.set key (some v), .done) ∧
+    vstep .smChart (d.set key (some v)) (.getKey key) = (d.set key (some v), .value (some v)) ∧
+    vstep .smChart (d.set key (some v)) (.getAttr (lower key)) = (d.set key (some v), .value (some v)) := by
+  have hk := smChart_attrKey_of_mem (d.set key (some v)) key h
+  have hg : attrGet .smChart (d.set key (some v)) (lower key) = some v := by
+    rw [attrGet_of_key _ _ _ key hk, get?_set_self]; rfl
+  refine ⟨?_, ?_, ?_⟩
+  · rw [vstep_setKey]; simp [h]
+  · rw [vstep_getKey]; simp [h, hg]
+  · rw [vstep_getAttr, hk, hg]
+
+/-- an attribute write on an SM chart goes to one of the six keys and is visible through both views -/
+theorem smchart_setAttr_visible (d : Dict) (a v key : Str) (h : attrKey .smChart d a = some key) :
+    key ∈ T.smChartProperties ∧
+    vstep .smChart d (.setAttr a v) = (d.set key (some v), .done) ∧
+    vstep .smChart (d.set key (some v)) (.getKey key) = (d.set key (some v), .value (some v)) ∧
+    vstep .smChart (d.set key (some v)) (.getAttr a) = (d.set key (some v), .value (some v)) := by
+  obtain ⟨_, hl, hm⟩ := smChart_attrKey d a key h
+  obtain ⟨_, h2, h3⟩ := smchart_setKey_visible d key v hm
+  rw [hl] at h3
+  refine ⟨hm, ?_, h2, h3⟩
+  rw [vstep_setAttr, h]; simp [hm]
+
+example : attrKey .smChart T.blankSMChart "meter".toList = some "METER".toList := by decide
+example : "CREDIT".toList ∉ T.smChartProperties ∧ "METER".toList ∈ T.smChartProperties := by decide
+example : vrun .smChart T.blankSMChart [.setKey "CREDIT".toList "me".toList, .setAttr "meter".toList "9".toList,
+      .delKey "METER".toList, .getKey "METER".toList, .getAttr "meter".toList] =
+    (Dict.set T.blankSMChart "METER".toList (some "9".toList),
+     [.keyError, .done, .notImplemented, .value (some "9".toList), .value (some "9".toList)]) := by decide +kernel
+
+/-! ### 11. the aliases, read off the generated tables -/
+
+theorem aliases_sm : T.smSimfileProps.filter (fun e => e.2.2.isSome) =
+    [("stops".toList, "STOPS".toList, some "FREEZES".toList),
+     ("bgchanges".toList, "BGCHANGES".toList, some "ANIMATIONS".toList)] := by decide
+
+theorem aliases_ssc : T.sscSimfileProps.filter (fun e => e.2.2.isSome) =
+    [("bgchanges".toList, "BGCHANGES".toList, some "ANIMATIONS".toList)] := by decide
+
+theorem aliases_ssc_chart : T.sscChartProps.filter (fun e => e.2.2.isSome) =
+    [("notes".toList, "NOTES".toList, some "NOTES2".toList)] := by decide
+
+theorem no_alias_sm_chart : T.smChartProps.filter (fun e => e.2.2.isSome) = [] := by decide
+
+/-- attribute names are unique within each table, so `find?` by attribute reaches every entry -/
+theorem attrs_unique (k : Kind) : ((propsTable k).map (·.1)).Nodup := by
+  cases k <;> decide +kernel
+
+end Simfile.C18
